@@ -40,18 +40,27 @@ def rand_date(rng, pool):
     return rng.choice(pool + GRID) if pool else rng.choice(GRID)
 
 
-def gen_history(rng, stale=False):
-    """[(op, payload)] with op in rr rd xr xd q open resume"""
+def gen_history(rng, mode="plain"):
+    """[(op, payload)] with op in rr rd xr xd q open resume.
+    mode: plain    — no kept iterators;
+          live     — kept iterators, never advanced after a later mutator (the domain of history_inv);
+          stale-rr — kept iterators advanced freely, mutators after the first open are rrule/exrule only
+                     (the stale generator's member iterators are then unaffected: the model is faithful);
+          stale    — anything (oracle only)."""
     ops = []
     pool = []          # instants seen so far, to make coincidences likely
     members = []       # reusable rule objects
-    L_guess = []
     n = rng.randint(1, 12)
-    n_open = 0
+    opened = []        # mutator count at open time
+    muts = 0
     for _ in range(n):
         r = rng.random()
         if r < 0.45 or not ops:
-            k = rng.choice(["rr", "rr", "rd", "rd", "xr", "xd", "xd"])
+            kinds = ["rr", "rr", "rd", "rd", "xr", "xd", "xd"]
+            if mode == "stale-rr" and opened:
+                kinds = ["rr", "xr"]
+            k = rng.choice(kinds)
+            muts += 1
             if k in ("rr", "xr"):
                 if members and rng.random() < 0.25:
                     rule, stream = rng.choice(members)      # the same object in another (or the same) role
@@ -62,12 +71,13 @@ def gen_history(rng, stale=False):
                 ops.append((k, (rule, stream)))
             else:
                 ops.append((k, rand_date(rng, pool)))
-        elif stale and r < 0.6:
-            if n_open and rng.random() < 0.5:
-                ops.append(("resume", (rng.randrange(n_open), rng.choice([1, 2, 5, 100]))))
+        elif mode != "plain" and r < 0.65:
+            cands = [j for j, m0 in enumerate(opened) if mode != "live" or m0 == muts]
+            if cands and rng.random() < 0.55:
+                ops.append(("resume", (rng.choice(cands), rng.choice([0, 1, 2, 5, 100]))))
             else:
                 ops.append(("open", rng.choice([0, 1, 2, 11])))
-                n_open += 1
+                opened.append(muts)
         else:
             L = sorted(set(pool))
             q = rng.choice([("take", rng.randint(0, 12)), ("all",), ("cnt",), rrlib.random_query(rng, L), rrlib.random_query(rng, L)])
@@ -81,18 +91,34 @@ def op_wire(op):
         return k + ilist(p[1])
     if k in ("rd", "xd"):
         return "%s%d" % (k, p)
+    if k == "open":
+        return "o%d" % p
+    if k == "resume":
+        return "u%d:%d" % p
     return "q" + q_wire(p)
 
 
 def run_impl(cache, ops):
-    """run the history on a real rruleset; returns observations (canonical strings or '-'), expectations, stale flag"""
+    """run the history on a real rruleset; returns observations (canonical strings or '-'), expectations
+    (set algebra on the members; for kept iterators: the next k instants of the sequence at open time), stale flag"""
     from dateutil import rrule as R
     s = R.rruleset(cache=cache)
     inc, exc = set(), set()
     obs, want = [], []
-    opened = []          # (iterator, number of mutators seen at open time)
+    opened = []          # [iterator, mutators seen at open time, expected list at open time, consumed]
     muts = 0
     stale_resume = False
+
+    def take(ent, k):
+        it, m0, L0, c = ent
+        try:
+            got = list(itertools.islice(it, k))
+            o = "ok_l_" + ilist(ints(got))
+        except Exception as ex:
+            o = "err_" + type(ex).__name__
+        w = "ok_l_" + ilist(L0[c:c + k])
+        ent[3] = min(len(L0), c + k)
+        return o, w
     for k, p in ops:
         if k == "rr":
             s.rrule(p[0]); inc.update(p[1]); muts += 1
@@ -102,24 +128,20 @@ def run_impl(cache, ops):
             s.rdate(rrlib.to_dt(p)); inc.add(p); muts += 1
         elif k == "xd":
             s.exdate(rrlib.to_dt(p)); exc.add(p); muts += 1
-        elif k == "open":
-            it = iter(s)
-            try:
-                list(itertools.islice(it, p))
-            except Exception:
-                pass
-            opened.append((it, muts))
-        elif k == "resume":
-            it, m0 = opened[p[0]]
-            if m0 != muts:
-                stale_resume = True
-            try:
-                list(itertools.islice(it, p[1]))
-            except Exception:
-                pass
         if k == "q":
             obs.append(rrlib.impl_query(s, p).replace(" ", "_"))
             want.append(py_query(sorted(inc - exc), p).replace(" ", "_"))
+        elif k == "open":
+            ent = [iter(s), muts, sorted(inc - exc), 0]
+            opened.append(ent)
+            o, w = take(ent, p)
+            obs.append(o); want.append(w)
+        elif k == "resume":
+            ent = opened[p[0]]
+            if ent[1] != muts:
+                stale_resume = True
+            o, w = take(ent, p[1])
+            obs.append(o); want.append(w if ent[1] == muts else None)     # what a stale iterator itself yields is not judged
         else:
             obs.append("-"); want.append("-")
     return obs, want, stale_resume
@@ -160,9 +182,13 @@ def correspondence(ctx):
     # histories
     reqs, exp, hs = [], [], []
     for _ in range(ctx.budget(1200, 12000)):
-        ops = gen_history(rng)
+        mode = rng.choice(["plain", "live", "live", "stale-rr"])
+        ops = gen_history(rng, mode)
         cache = rng.random() < 0.6
-        obs, want, _ = run_impl(cache, ops)
+        obs, want, st = run_impl(cache, ops)
+        ctx.count("corr_mode_" + mode)
+        if st:
+            ctx.count("corr_histories_with_stale_resume")
         reqs.append("rset.run %d %s" % (int(cache), ";".join(op_wire(o) for o in ops)))
         exp.append("ok " + ";".join(obs))
         hs.append((cache, ops))
@@ -182,9 +208,9 @@ def describe(ops):
         elif k in ("rd", "xd"):
             out.append("%s%d" % (k, p))
         elif k == "open":
-            out.append("open%d" % p)
+            out.append("o%d" % p)
         elif k == "resume":
-            out.append("resume%d:%d" % p)
+            out.append("u%d:%d" % p)
         else:
             out.append("q" + q_wire(p))
     return ";".join(out)
@@ -195,8 +221,7 @@ def oracle(ctx):
     rng = ctx.subrng("oracle")
     n = ctx.budget(2000, 24000)
     for i in range(n):
-        stale = i % 5 == 4
-        ops = gen_history(rng, stale=stale)
+        ops = gen_history(rng, ["plain", "live", "live", "stale-rr", "stale"][i % 5])
         cache = rng.random() < 0.6
         obs, want, stale_resume = run_impl(cache, ops)
         key = (cache, describe(ops))
@@ -209,10 +234,12 @@ def oracle(ctx):
         for (k, p), o, w in zip(ops, obs, want):
             if k == "q":
                 ctx.count("obs_" + p[0])
+            elif k in ("open", "resume"):
+                ctx.count("obs_" + k)
             else:
                 ctx.count("op_" + k)
         for j, (o, w) in enumerate(zip(obs, want)):
-            if o != w:
+            if w is not None and o != w:
                 ctx.violation("observation %d (%s) of history %s (cache=%s): got %s, set algebra on the members gives %s"
                               % (j, op_wire(ops[j]), describe(ops)[:300], cache, o[:200], w[:200]),
                               {"cache": cache, "history": describe(ops), "stale_resume": stale_resume, "failing_op": j},
@@ -234,7 +261,7 @@ def oracle(ctx):
     ctx.case(("witness-stale",), nontrivial=True)
     if got != 14:
         ctx.violation("witness D-C10-stale: after a stale iterator finished, list(set) has %d items, expected 14" % got,
-                      {"cache": True, "history": "rr[daily x13];open1;rd1728000;resume0:100;qall", "stale_resume": True, "failing_op": 4},
+                      {"cache": True, "history": "rr[0,86400,...x13];o1;rd1728000;u0:100;qall", "stale_resume": True, "failing_op": 4},
                       {"impl": got, "want": 14})
 
 
@@ -257,10 +284,10 @@ def parse_history(text):
             ops.append((tok[:2], (m, stream)))
         elif tok[:2] in ("rd", "xd"):
             ops.append((tok[:2], int(tok[2:])))
-        elif tok.startswith("open"):
-            ops.append(("open", int(tok[4:])))
-        elif tok.startswith("resume"):
-            a, b = tok[6:].split(":")
+        elif tok.startswith("o"):
+            ops.append(("open", int(tok[1:])))
+        elif tok.startswith("u"):
+            a, b = tok[1:].split(":")
             ops.append(("resume", (int(a), int(b))))
         elif tok.startswith("q"):
             f = tok[1:].split(":")
@@ -287,6 +314,6 @@ def replay(ctx, payload):
     ops = parse_history(c["history"])
     obs, want, _ = run_impl(c["cache"], ops)
     for o, w, op in zip(obs, want, ops):
-        if op[0] == "q":
-            print("replay %s: impl=%s want=%s" % (op_wire(op), o[:120], w[:120]))
-    return obs == want
+        if op[0] in ("q", "open", "resume"):
+            print("replay %s: impl=%s want=%s" % (op_wire(op), o[:120], str(w)[:120]))
+    return all(w is None or o == w for o, w in zip(obs, want))
